@@ -16,7 +16,7 @@ RULE = ("margin (L1, real SifchainApp, real margin+clp keepers and message serve
         "BeginBlocker every block (epoch boundaries with interest, liquidations), real clp Swap/AddLiquidity/RemoveLiquidity moving the "
         "price by up to 60% of depth, administrator parameter changes (including fund addresses set to a module account, safety factor "
         "1.5/2/10/100, the real MsgAdminCloseAll with and without the fund cut, either or both fund addresses left out of MsgUpdateParams = stored empty, fund percentages 0/0.1/0.5/1, all while positions "
-        "are open; the message is encoded, decoded, ValidateBasic'ed and sent through the message server), plus 12 directed histories per "
+        "are open; the message is encoded, decoded, ValidateBasic'ed and sent through the message server), plus 13 directed histories per "
         "run (the configurations of F14/F14b/F14c; all ten pools at once with positions on both sides of each, two epoch hooks, every "
         "position closed; safety factor exactly 0 with positions pushed below health 1.05 and 1 by a swap, then 10^-18, 1, 1.05, 100 at "
         "successive epoch hooks; two positions of opposite direction in one 10^24/10^24 pool, the earlier (address order) large and under "
@@ -24,7 +24,9 @@ RULE = ("margin (L1, real SifchainApp, real margin+clp keepers and message serve
         "collateral sides, then the real MsgAdminCloseAll with the fund cut (safety factor 100) and MsgUpdateParams to 2 and 10: the hook "
         "liquidates positions that still have value, collateral and fund share leave the module; pool-open threshold 0.93 with "
         "leveraged opens locking the pool (a further open refused) and owner closes while it is locked, mid-epoch and at a boundary, "
-        "both collateral sides; interest fund address empty: hook, mid-epoch Close, AdminClose; force-close fund address empty: AdminClose "
+        "both collateral sides; opens SOLVED to land exactly on the safety factor (health == 1.05 resp. 1.5, found by trial opens on "
+        "discarded branches with the factor set to 0 and the stored position valued by CLPSwap; leverage max 20) with the neighbours one "
+        "unit of collateral above and below, both collateral sides; interest fund address empty: hook, mid-epoch Close, AdminClose; force-close fund address empty: AdminClose "
         "with/without fund cut, liquidation).  After every operation: full state dump compared "
         "with the model (pools: 13 fields, positions: 13 fields, counters, 7 accounts x 3 denoms) and MarginOK judged on the "
         "implementation's dump per pool with exact symbol matching, and the backing identity of C01 restricted to this world (c01.marginbacking: for every "
